@@ -786,6 +786,11 @@ class Interp:
                 # key / function arguments may be interpreted closures
                 return self._call_hof(f, args, kwargs)
             try:
+                # the interpreter's own int/float/bool wrappers must not leak into native callables (e.g. numpy dtype=int)
+                nat = {Interp._b_int: int, Interp._b_float: float, Interp._b_bool: bool}
+                conv = lambda x: nat.get(getattr(x, "__func__", None), x)
+                args = [conv(a) for a in args]
+                kwargs = {k: conv(v) for k, v in kwargs.items()}
                 return f(*args, **kwargs)
             except (Unsupported, PyExc, core.Infeasible, _Return):
                 raise
